@@ -149,7 +149,10 @@ def part_b(sh, forms, offsets, seed):
                     continue
                 sh.case((enc, off), True, cls='B:' + fam)
                 if ins.l != len(enc):
-                    sh.counters['B_length_mismatch(C01):' + fam] += 1
+                    # the encoding was built here from the architectural form, so its length is known: a different decoded
+                    # length makes the reported fall-through address (offset + length) wrong
+                    sh.violation('nextflow/%s/decoded-length' % fam, '%s at 0x%x: decoded length %d, the transfer is %d bytes long, so the fall-through address is wrong' % (
+                        enc.hex(), off, ins.l, len(enc)), wit)
                     continue
                 if ins.offset != off:
                     sh.violation('offset-not-recorded/%s' % fam, '%s at 0x%x: recorded offset %r' % (enc.hex(), off, ins.offset), wit)
